@@ -311,6 +311,58 @@ def run(ctx):
     from .. import core as _core
     _core.run_proxied(ctx, _c01, 'R05m', ('R01m',))
 
+    # ---- R05n: a nested group with the argument's own opening delimiter is read in the contents state
+    ctx.rule('R05n', 'LatexDelimitedGroupParserInfo.make_child_parsing_state returns the contents state for a child group opened '
+                     'by the same delimiter under exactly that test (kind brace_open, same opening delimiter): no further '
+                     'condition sends `[a[b]c]` to the outer state, where `[` is not a delimiter', 1)
+    dlm_ = repo.mod('pylatexenc.latexnodes.parsers._delimited')
+    mk_ = dlm_.methods('LatexDelimitedGroupParserInfo').get('make_child_parsing_state')
+    if mk_ is None:
+        raise AnalysisError('anchor vanished: LatexDelimitedGroupParserInfo.make_child_parsing_state')
+    try:
+        mrc_ = [c for c in symex.Walker(want_returns=True).run(mk_) if c.kind == 'return']
+    except symex.TooManyPaths:
+        mrc_ = []
+    tk_ = mk_.args.args[3].arg if len(mk_.args.args) > 3 else 'token'
+    want_ = {("%s.tok == 'brace_open'" % tk_, True), ('%s.arg == self.parsed_delimiters[0]' % tk_, True)}
+    keep_ = [c for c in mrc_ if unparse(c.sub) == 'self.contents_parsing_state']
+    extra_ = None
+    pm_ = dict(dlm_.methods('LatexDelimitedExpressionParserInfo'))
+    pm_.update(dlm_.methods('LatexDelimitedGroupParserInfo'))
+    for c in keep_:
+        f_ = symex.facts_of(c.conds, c.env, methods=pm_)       # named predicates (single-return methods) are inlined
+        if f_ - want_ and extra_ is None:
+            extra_ = sorted(f_ - want_)
+        if not want_ <= f_ and extra_ is None:
+            extra_ = ['missing: %s' % sorted(want_ - f_)]
+    ctx.decide('R05n', bool(keep_) and extra_ is None, dlm_, keep_[0].node if keep_ else mk_,
+               'contents state kept exactly for a child group with the same opening delimiter',
+               'make_child_parsing_state keeps the contents state only under the additional condition(s) %s: a bracket '
+               'nested in an optional argument is then read in the outer state, the delimited-group parser is handed a '
+               'token that is not a delimiter there and fails with ValueError instead of a parse error' % extra_,
+               construct='make_child_parsing_state: same-delimiter child')
+    # ---- R05o: verbatim text ends at the first terminator
+    ctx.rule('R05o', 'no regular expression used to find the end of verbatim text has a greedy `.*` / `.+` in front of the '
+                     'terminator (the FIRST terminator ends the text; a greedy scan runs to the last one and swallows '
+                     'everything between two listings)', 0)
+    import re as _re
+    n_vr = 0
+    for modn_ in ('pylatexenc.macrospec._pyltxenc2_argparsers._verbatimargsparser', 'pylatexenc.latexnodes.parsers._verbatim'):
+        vm_ = repo.mod(modn_)
+        for c_ in ast.walk(vm_.tree):
+            if isinstance(c_, ast.Call) and call_name(c_) in ('compile', 'match', 'search', 'finditer', 'findall') and c_.args \
+                    and (isinstance(c_.func, ast.Attribute) and unparse(c_.func.value) == 're'):
+                parts_ = [x_.value for x_ in ast.walk(c_.args[0]) if isinstance(x_, ast.Constant) and isinstance(x_.value, str)]
+                n_vr += 1
+                greedy = [p_ for p_ in parts_ if _re.search(r'\.[*+](?!\?)', p_)]
+                ctx.decide('R05o', not greedy, vm_, c_, 'no greedy wildcard in ' + short(c_.args[0], 40),
+                           'the pattern %s scans with a greedy wildcard up to the terminator: with two verbatim environments '
+                           'in a document everything up to the LAST \\end{..} is taken as verbatim text, so an unmatched '
+                           'brace or \\begin between the two listings is accepted in strict mode' % short(c_.args[0], 60),
+                           construct='%s: %s' % (vm_.relpath, short(c_.args[0], 40)))
+    ctx.holds('R05o', repo.mod('pylatexenc.latexnodes.parsers._verbatim'), None,
+              '%d regular expression(s) in the verbatim readers' % n_vr, construct='verbatim regex scan', trivial=True)
+
     return 'other', (
         'Exception-escape analysis (least fixpoint over the resolved call graph, strict '
         'configuration) of LatexWalker.parse_content over every parser class: each escaping '
